@@ -223,6 +223,11 @@ CLUSTERS = {
             "temperature_bin.edge_bin_rate": ["heuristic", None, 0.5],
             "temperature_bin.edge_bin_percent": [0.0425, None],
         },
+        "wavelet": {
+            # discrete wavelets are valid, the continuous-only families of PyWavelets (morl, mexh, cmor ...) and made-up names are not
+            "temporal_cluster.wavelet_name": ["haar", "db2", "morl", "mexh", "cmor", "gaus3", "bogus"],
+            "temporal_cluster.wavelet_mode": ["periodization", "symmetric", "bogus"],
+        },
         "adaptive_weights": {
             "elasticnet.adaptive_weights": [False, True],
             "elasticnet.adaptive_weight_max_iter": [None, 1, 100, 0],
